@@ -421,7 +421,11 @@ JoinBegin(c, o) ==
           /\ act' = [act EXCEPT ![a].jh = "taken"]
      ELSE /\ cli' = Instant(c, o, Mid(c), Last("none", 0, 0, a))
           /\ act' = act
-  /\ UNCHANGED <<hnd, rsp, tmr, reg, now, hst>>
+  \* (d = 5: the join future is made, the OwningAddr is detached into a plain Addr, and only then the future is awaited)
+  /\ hnd' = IF o.d = 5 /\ o.nh # "none"
+            THEN (o.nh :> [kind |-> "addr", a |-> a, owner |-> c, polled |-> FALSE]) @@ [y \in DOMAIN hnd \ {x} |-> hnd[y]]
+            ELSE hnd
+  /\ UNCHANGED <<rsp, tmr, reg, now, hst>>
 
 \* consume / consume_sync continue here after their stop request was accepted and the handle taken
 JoinReady(c) == act[cli[c].ta].result # "none"
